@@ -31,6 +31,9 @@ type step struct {
 	A string         `json:"a"`
 	X map[string]int `json:"x"`
 	E bool           `json:"e"` // eager: also run the code that follows the step's last Unlock
+	// arrive only: the thread runs up to its next real yield point (typically the Lock of its critical section) and
+	// parks there WITHOUT being granted it, so that whatever the code does before taking the lock happens early
+	Arr bool `json:"arr"`
 }
 
 type script struct {
@@ -42,6 +45,7 @@ type script struct {
 	Close    bool                `json:"close"`
 	Panic    map[string]bool     `json:"panic"`
 	Steps    []step              `json:"steps"`
+	Arrive   bool                `json:"arrive"` // the script contains arrive-only steps: calls overlap (not linearized)
 }
 
 type summary struct {
@@ -109,7 +113,7 @@ func runScript(g *nbio.Engine, sc *script, sum *summary) {
 	var c *nbio.Conn
 	var tm *timer.Timer
 	var peer interface{ Close() error }
-	lin := true
+	lin := !sc.Arrive
 	execn := 0
 	if sc.Variant == "conn" {
 		a, b, err := hlib.UnixPair()
@@ -196,6 +200,13 @@ func runScript(g *nbio.Engine, sc *script, sum *summary) {
 	stuck := false
 	for i, st := range sc.Steps {
 		sum.Steps++
+		if st.Arr {
+			if err := s.PassAllTransparent(st.T); err != nil {
+				stuck = true
+				break
+			}
+			continue
+		}
 		_, err := s.Step(st.T)
 		if err != nil {
 			if _, ok := err.(vrt.ErrStuck); ok {
